@@ -215,11 +215,18 @@ func (g Gctx) Finish(tx *gorm.DB, f Fin) *gorm.DB {
 		}
 		return tx.Create(&its)
 	case "create_map":
-		return tx.Create(namedEntries(f.L, g))
+		m := namedEntries(f.L, g)
+		if f.Rows {
+			return tx.Create(&m)
+		}
+		return tx.Create(m)
 	case "create_maps":
 		ms := make([]map[string]interface{}, len(f.L))
 		for i, r := range f.L {
 			ms[i] = namedEntries(r.L, g)
+		}
+		if len(ms)%2 == 0 {
+			return tx.Create(&ms)
 		}
 		return tx.Create(ms)
 	case "raw":
